@@ -94,7 +94,10 @@ def new_cert(key_name, issuer_id_component, pub_key, signer, start_time, end_tim
     cert_val.meta_info = MetaInfo(content_type=ContentType.KEY, freshness_period=3600000)
     cert_val.signature_info = CertificateV2SignatureInfo()
     cert_val.signature_info.validity_period = ValidityPeriod()
-    cur_time = start_time
+    # The validity period is written in UTC: an aware datetime names an instant whatever its offset (naive ones are taken as UTC)
+    cur_time = start_time.astimezone(UTC) if start_time.tzinfo is not None else start_time
+    if end_time.tzinfo is not None:
+        end_time = end_time.astimezone(UTC)
     not_before = cur_time.strftime('%Y%m%dT%H%M%S').encode()
     cert_val.signature_info.validity_period.not_before = not_before
     not_after = end_time.strftime('%Y%m%dT%H%M%S').encode()
